@@ -524,8 +524,42 @@ func VH_rdp_negreq() {
 	iff(matched, tpkt && x224 && neg && !corr, "rdp negotiation request")
 }
 
+// RDP connection request with rdpNegReq + rdpCorrelationInfo (MS-RDPBCGR 2.2.1.1.1/2.2.1.1.2):
+// type 6, flags 0, length 36, a 16-byte id whose first byte is neither 0x00 nor 0xF4 and
+// which holds no 0x0D, 16 reserved zero bytes.
+func VH_rdp_corrinfo() {
+	d := vapi.BytesN("D", 55)
+	for i := 11; i < 55; i++ {
+		if i != 23 && i != 28 {
+			// no cookie / token line; inside the id CR is the subject, at its first byte and at one
+			// interior byte (every free CR position doubles the paths of the matcher's CR LF scan)
+			vapi.Assume(d[i] != '\r')
+		}
+	}
+	matched := run(&l4rdp.MatchRDP{}, d, false)
+	tpkt := d[0] == 3 && d[1] == 0 && d[2] == 0 && d[3] == 55
+	x224 := d[4] == 50 && d[5] == 0xE0 && d[6] == 0 && d[7] == 0 && d[8] == 0 && d[9] == 0 && d[10] == 0
+	flags := d[12]
+	proto := uint32(d[15]) | uint32(d[16])<<8 | uint32(d[17])<<16 | uint32(d[18])<<24
+	neg := d[11] == 1 && flags&^0x0B == 0 && flags&8 != 0 && d[13] == 8 && d[14] == 0 && proto&^0x1F == 0 &&
+		!(proto&8 != 0 && proto&2 == 0) && !(proto&2 != 0 && proto&1 == 0)
+	corr := d[19] == 6 && d[20] == 0 && d[21] == 36 && d[22] == 0 && d[23] != 0 && d[23] != 0xF4
+	for i := 23; i < 39; i++ {
+		corr = vapi.And(corr, d[i] != '\r')
+	}
+	for i := 39; i < 55; i++ {
+		corr = vapi.And(corr, d[i] == 0)
+	}
+	iff(matched, tpkt && x224 && neg && corr, "rdp request with correlation info")
+}
+
+func VH_socks5_unsorted() {
+	socks5(&l4socks.Socks5Matcher{AuthMethods: []uint16{128, 2, 0}}, func(b byte) bool { return b == 0 || b == 2 || b == 128 }, "socks5 with unsorted auth_methods")
+}
+
 func init() {
 	for name, f := range map[string]func(){
+		"VH_rdp_corrinfo": VH_rdp_corrinfo, "VH_socks5_unsorted": VH_socks5_unsorted,
 		"VH_winbox": VH_winbox, "VH_winbox_romon": VH_winbox_romon, "VH_winbox_user": VH_winbox_user,
 		"VH_openvpn_plain_tcp": VH_openvpn_plain_tcp, "VH_openvpn_plain_udp": VH_openvpn_plain_udp, "VH_rdp_negreq": VH_rdp_negreq,
 		"VH_ssh": VH_ssh, "VH_xmpp": VH_xmpp, "VH_proxyproto": VH_proxyproto, "VH_socks4": VH_socks4, "VH_socks4_filter": VH_socks4_filter,
